@@ -2,7 +2,7 @@ import StepupModel.Lemmas.EverOutputBase
 /-!
 # Product rows and their declarations: `Trellis.create`
 
-`create_inv`: `Trellis.create k creator init` keeps the invariant `Inv All A` when the requested
+`create_inv`: `Trellis.create k creator init` keeps the invariant `Inv O All A` when the requested
 initial state of a file row is allowed: a product state only for a label of `A` and an owner that is a
 step or a tree, UNDECLARED only without creator.  No property statements here.
 -/
@@ -12,15 +12,15 @@ set_option linter.unusedSimpArgs false
 set_option linter.unusedVariables false
 
 /-- The clauses of the invariant on one row. -/
-def RowGood (A : String → Prop) (n : Node) : Prop :=
+def RowGood (O : Key → Prop) (A : String → Prop) (n : Node) : Prop :=
   n.key.kind = .file →
-    (IsProduct n.fstate → A n.key.label ∧ ∀ c, n.creator = some c → OwnerKind c) ∧
+    (IsProduct n.fstate → A n.key.label ∧ ∀ c, n.creator = some c → O c) ∧
     (n.fstate = .undeclared → n.detached = true ∧ n.creator = none)
 
 /-- Rewriting the rows of the exempted key into good rows gives the full invariant. -/
-theorem inv_modify_row {A : String → Prop} {t : KState} {k : Key} (hI : Inv (fun x => x ≠ k) A t) (g : Node → Node)
-    (hg : ∀ n ∈ t.nodes, n.key = k → (g n).key = k ∧ RowGood A (g n)) : Inv All A (t.modify k g) := by
-  have hmem : ∀ n' ∈ (t.modify k g).nodes, (n' ∈ t.nodes ∧ n'.key ≠ k) ∨ (n'.key = k ∧ RowGood A n') := by
+theorem inv_modify_row {O : Key → Prop} {A : String → Prop} {t : KState} {k : Key} (hI : Inv O (fun x => x ≠ k) A t) (g : Node → Node)
+    (hg : ∀ n ∈ t.nodes, n.key = k → (g n).key = k ∧ RowGood O A (g n)) : Inv O All A (t.modify k g) := by
+  have hmem : ∀ n' ∈ (t.modify k g).nodes, (n' ∈ t.nodes ∧ n'.key ≠ k) ∨ (n'.key = k ∧ RowGood O A n') := by
     intro n' hn'
     unfold KState.modify at hn'
     obtain ⟨n, hn, rfl⟩ := List.mem_map.1 hn'
@@ -70,14 +70,14 @@ theorem fileRowWrite_row {n n' : Node} {st : FileState} {nh : Option (Option Nat
       | false => exact absurd ⟨hst, by simp [hd]⟩ hu
 
 /-- The upsert of `File.initialize_row` on the exempted key. -/
-theorem writeInitialFile_inv {A : String → Prop} {t t1 : KState} {k : Key} {creator : Option Key} {st : FileState}
-    {existed : Bool} (hI : Inv (fun x => x ≠ k) A t)
+theorem writeInitialFile_inv {O : Key → Prop} {A : String → Prop} {t t1 : KState} {k : Key} {creator : Option Key} {st : FileState}
+    {existed : Bool} (hI : Inv O (fun x => x ≠ k) A t)
     (hcr : ∀ nk ∈ t.nodes, nk.key = k → nk.creator = creator ∨ nk.creator = none)
-    (hp : IsProduct st → A k.label ∧ ∀ c, creator = some c → OwnerKind c)
+    (hp : IsProduct st → A k.label ∧ ∀ c, creator = some c → O c)
     (hu : st = .undeclared → creator = none)
-    (h : t.writeInitialFile k st existed = .ok t1) : Inv All A t1 := by
+    (h : t.writeInitialFile k st existed = .ok t1) : Inv O All A t1 := by
   have good : ∀ n ∈ t.nodes, n.key = k → ∀ n' : Node, n'.key = n.key → n'.creator = n.creator → n'.fstate = st →
-      (st = .undeclared → n'.detached = true) → RowGood A n' := by
+      (st = .undeclared → n'.detached = true) → RowGood O A n' := by
     intro n hn hnk n' h1 h2 h3 h4 hkind
     have hc := hcr n hn hnk
     refine ⟨fun hprod => ?_, fun hund => ?_⟩
@@ -117,7 +117,7 @@ theorem writeInitialFile_inv {A : String → Prop} {t t1 : KState} {k : Key} {cr
         obtain ⟨r1, r2, r3, r4, r5⟩ := fileRowWrite_row hwr
         have hmk : m.key = k := find_key hfk
         have hmm : m ∈ t.nodes := find_mem hfk
-        have hm : Inv All A (t.modify k fun _ => m') := by
+        have hm : Inv O All A (t.modify k fun _ => m') := by
           refine inv_modify_row hI _ fun n hn hnk => ⟨r1.trans hmk, ?_⟩
           exact good m hmm hmk m' r1 r2 r4 (fun hst => by rw [r3]; exact r5 hst)
         subst h
@@ -146,13 +146,13 @@ theorem writeInitialFile_inv {A : String → Prop} {t t1 : KState} {k : Key} {cr
         simp [hd]
 
 /-- `File.initialize_row` on the exempted key (a recycled BUILT/OUTDATED row keeps its state). -/
-theorem initFileRow_inv {A : String → Prop} {t t' : KState} {k : Key} {creator : Option Key} {st : FileState}
-    {existed : Bool} (hI : Inv (fun x => x ≠ k) A t) (hkind : k.kind = .file)
+theorem initFileRow_inv {O : Key → Prop} {A : String → Prop} {t t' : KState} {k : Key} {creator : Option Key} {st : FileState}
+    {existed : Bool} (hI : Inv O (fun x => x ≠ k) A t) (hkind : k.kind = .file)
     (hcr : ∀ nk ∈ t.nodes, nk.key = k → nk.creator = creator ∨ nk.creator = none)
-    (hp : IsProduct st → A k.label ∧ ∀ c, creator = some c → OwnerKind c)
+    (hp : IsProduct st → A k.label ∧ ∀ c, creator = some c → O c)
     (hu : st = .undeclared → creator = none)
-    (h : t.initFileRow k st existed = .ok t') : Inv All A t' := by
-  have hkept : (IsProduct (t.keptState k st existed) → A k.label ∧ ∀ c, creator = some c → OwnerKind c) ∧
+    (h : t.initFileRow k st existed = .ok t') : Inv O All A t' := by
+  have hkept : (IsProduct (t.keptState k st existed) → A k.label ∧ ∀ c, creator = some c → O c) ∧
       (t.keptState k st existed = .undeclared → creator = none) := by
     unfold KState.keptState
     cases hfk : t.find? k with
@@ -184,16 +184,16 @@ theorem initFileRow_inv {A : String → Prop} {t t' : KState} {k : Key} {creator
 /-- What `create` may be asked for a key: a file gets a file initialisation, whose state is a product
 state only for a label of `A` and an owning step or tree, and UNDECLARED only without creator; the other
 initialisations are for keys that are no files. -/
-def InitAllowed (A : String → Prop) (k : Key) (creator : Option Key) : Init → Prop
-  | .file st => k.kind = .file ∧ (IsProduct st → A k.label ∧ ∀ c, creator = some c → OwnerKind c) ∧
+def InitAllowed (O : Key → Prop) (A : String → Prop) (k : Key) (creator : Option Key) : Init → Prop
+  | .file st => k.kind = .file ∧ (IsProduct st → A k.label ∧ ∀ c, creator = some c → O c) ∧
       (st = .undeclared → creator = none)
   | _ => k.kind ≠ .file
 
-theorem initRow_inv {A : String → Prop} {t t' : KState} {k : Key} {creator : Option Key} {init : Init}
-    {existed : Bool} (hI : Inv (fun x => x ≠ k) A t)
+theorem initRow_inv {O : Key → Prop} {A : String → Prop} {t t' : KState} {k : Key} {creator : Option Key} {init : Init}
+    {existed : Bool} (hI : Inv O (fun x => x ≠ k) A t)
     (hcr : ∀ nk ∈ t.nodes, nk.key = k → nk.creator = creator ∨ nk.creator = none)
-    (ha : InitAllowed A k creator init) (h : t.initRow k init existed = .ok t') : Inv All A t' := by
-  have hnf : k.kind ≠ .file → Inv All A t := fun hk =>
+    (ha : InitAllowed O A k creator init) (h : t.initRow k init existed = .ok t') : Inv O All A t' := by
+  have hnf : k.kind ≠ .file → Inv O All A t := fun hk =>
     hI.mono (fun x hx _ he => by rw [he] at hx; exact hk hx) (fun _ hp => hp)
   unfold KState.initRow at h
   cases init with
@@ -216,12 +216,12 @@ theorem not_mem_of_find_none {s : KState} (hk : KeysUnique s) {k : Key} (hf : s.
   have := find?_of_mem hk hn
   rw [he, hf] at this; cases this
 
-theorem inv_exempt {A : String → Prop} {s : KState} (k : Key) (h : Inv All A s) : Inv (fun x => x ≠ k) A s :=
+theorem inv_exempt {O : Key → Prop} {A : String → Prop} {s : KState} (k : Key) (h : Inv O All A s) : Inv O (fun x => x ≠ k) A s :=
   h.mono (fun _ _ _ => trivial) (fun _ hp => hp)
 
 /-- **`Trellis.create`** (fresh row or recycled row) keeps the invariant for an allowed initialisation. -/
-theorem create_inv {A : String → Prop} {k : Key} {creator : Option Key} {init : Init}
-    (ha : InitAllowed A k creator init) : Preserves (Inv All A) (fun s => s.create k creator init) := by
+theorem create_inv {O : Key → Prop} {A : String → Prop} {k : Key} {creator : Option Key} {init : Init}
+    (ha : InitAllowed O A k creator init) : Preserves (Inv O All A) (fun s => s.create k creator init) := by
   intro s s' hI h
   replace h : s.create k creator init = .ok s' := h
   unfold KState.create at h
@@ -252,7 +252,7 @@ theorem create_inv {A : String → Prop} {k : Key} {creator : Option Key} {init 
               have r3 : StructRel (s2.deleteDeps fun dp => dp.snk = k) s3 := by
                 unfold KState.detachProducts at h3
                 exact structRel_foldl_detach _ _ _ h3
-              have i3 : Inv (fun x => x ≠ k) A s3 := by
+              have i3 : Inv O (fun x => x ≠ k) A s3 := by
                 unfold KState.detachProducts at h3
                 exact foldlM_detach_inv _ _ _ i3a h3
               have hcr : ∀ nk ∈ s3.nodes, nk.key = k → nk.creator = creator ∨ nk.creator = none := by
@@ -289,7 +289,7 @@ theorem create_inv {A : String → Prop} {k : Key} {creator : Option Key} {init 
         unfold KState.appendNode at hm
         simp only [List.mem_append, List.mem_singleton] at hm
         exact hm
-      have iA : Inv (fun x => x ≠ k) A (s.appendNode k creator) := by
+      have iA : Inv O (fun x => x ≠ k) A (s.appendNode k creator) := by
         refine ⟨hkA, ?_, ?_, ?_⟩
         · intro m hm hkind hp
           rcases hmem m hm with hm | rfl
